@@ -2,7 +2,7 @@
    A run is any sequence of (op, v): 1 try_put(v) | 2 try_get | 3 try_reserve | 4 try_release | 5 try_consume with v >= 0;
    h_acc = accepted puts in order, h_del = items handed out by try_get or try_consume, in order. *)
 From Coq Require Import Sorting.Permutation.
-From OTV Require Import Lib.Tac BufModel BufProofs JoinModel JoinProofs.
+From OTV Require Import Lib.Tac BufModel BufProofs JoinModel JoinProofs JoinRModel JoinRProofs.
 Local Open Scope Z_scope.
 
 (* queue_node: at every moment  delivered ++ still-buffered = accepted puts, in order: items leave in arrival order,
@@ -92,4 +92,44 @@ Print Assumptions join_complete_tuple_not_stranded.
 Example join_example :
   run_join [2; 1;0;1001; 1;1;2001; 3;0;0; 1;0;1002; 1;1;2002; 1;0;1003; 4;0;0; 6;0;0; 2;0;0; 1;1;2003; 6;0;0] =
   [1; 1; 0; 1; 0; 1; 0; 1; 2; 0; 1; 1; 0; 0; 1; 2; 0; 1; 1; 0; 0; 1; 1; 0; 1; 1; 1; 0; 1; 0; 0; 0; 1; 1; 1; 1; 0; 0; 0; 1; 2; 1; 1; 1; 0; 0; 2; 1; 0; 1; 1; 0; 1; 2; 1; 0; 1; 1; 0; 1; 2; 1; 0; 1; 2; 0; 1; 3; 0; 0; 1; 2; 0; 1; 3; 0; 0; -7; 1001; 2001; 1002; 2002; 1003; 2003].
+Proof. vm_compute. reflexivity. Qed.
+
+
+(* ------------------------------------------------------------------------------------------------------------------
+   join_node, RESERVING policy, fed by FIFO senders (JoinRModel).  For every number of ports >= 1 and every sequence of operations
+   (puts into any sender, the successor accepting / refusing / pulling / registering again, forward tasks at any moment):
+   inputs are consumed only as complete tuples and the i-th tuple is the i-th message of every sender (everything put into sender p =
+   the p-th components of the delivered tuples followed by what the sender still holds - so a refused or incomplete attempt consumed
+   nothing: all reservations were released); ports_with_no_inputs is the number of ports whose sender is not in the predecessor
+   cache, and such a sender is empty. *)
+Theorem join_reserving_all_or_nothing : forall np ops, (0 < np)%nat ->
+  let n := rjrun (rjinit np) ops in
+  (forall p, (p < length (r_qs n))%nat -> getq (r_puts n) p = proj p (r_out n) ++ getq (r_qs n) p) /\
+  r_pwni n = Z.of_nat (count_nopull (r_pull n)) /\
+  (forall p, (p < length (r_qs n))%nat -> getb' (r_pull n) p = false -> getq (r_qs n) p = []).
+Proof.
+  intros np ops H n. destruct (rjrun_RJ ops _ (rjinit_RJ np H)) as [(_ & _ & _ & H4 & H5 & H6 & _) _]. auto.
+Qed.
+Print Assumptions join_reserving_all_or_nothing.
+
+(* no complete tuple is stranded: with no forward task pending and the successor registered, some sender is empty *)
+Theorem join_reserving_tuple_not_stranded : forall np ops, (0 < np)%nat ->
+  let n := rjrun (rjinit np) ops in
+  r_fwd n = 0 -> r_push n = true -> exists p, (p < length (r_qs n))%nat /\ getq (r_qs n) p = [].
+Proof.
+  intros np ops H n Hf Hp. destruct (rjrun_RJ ops _ (rjinit_RJ np H)) as [(_ & _ & HLp & H4 & H5 & _) Hs]. fold n in HLp, H4, H5, Hs.
+  destruct (count_nopull (r_pull n)) eqn:Ec; [specialize (Hs H4 Hp); lia|].
+  assert (Hex : exists p, (p < length (r_pull n))%nat /\ getb' (r_pull n) p = false).
+  { clear - Ec. unfold count_nopull, getb' in *. induction (r_pull n) as [|x l IH]; cbn in *; [discriminate|]. destruct x; cbn in *.
+    - destruct (IH Ec) as [p [Hp Hq]]. exists (S p). split; [lia|auto].
+    - exists 0%nat. split; [lia|auto]. }
+  destruct Hex as [p [Hp1 Hp2]]. exists p. rewrite HLp in Hp1. split; auto.
+Qed.
+Print Assumptions join_reserving_tuple_not_stranded.
+
+Example joinr_example :
+  run_joinr [2; 1;0;1001; 1;1;2001; 1;1;2002; 3;0;0; 1;0;1002; 4;0;0; 4;0;0; 6;0;0; 2;0;0; 1;0;1003; 1;1;2003; 6;0;0] =
+  [1; 1; 0; 1; 0; 1; 1; 0; 0; 1; 1; 0; 1; 1; 0; 1; 0; 0; 1; 1; 0; 1; 1; 0; 0; 1; 1; 1; 1; 0; 1; 1; 0; 0; 1; 1; 1; 0; 0; 0; 1; 1; 1; 1; 1; 1; 0; 0; 0; 2; 0; 1; 0; 1; 0; 1;
+   0; 0; 2; 0; 1; 0; 0; 1; 1; 0; 1; 2; 0; 1; 0; 0; 1; 1; 0; 1; 2; 0; 1; 0; 0; 1; 1; 0; 1; 2; 1; 1; 0; 0; 1; 1; 0; 1; 3; 0; 1; 0; 0; 1; 1; 0; 1; 3; 0; 1; 0; 0;
+   -7; 1001; 2001; 1002; 2002; 1003; 2003; -8; 0].
 Proof. vm_compute. reflexivity. Qed.
